@@ -33,7 +33,7 @@ PROBES = [
     '<t:root xmlns:t="urn:t"><t:member><t:v>1</t:v><t:w>51</t:w></t:member><t:y>2020-02-30</t:y></t:root>',
     '<t:root xmlns:t="urn:t"><t:head><t:v>1</t:v><t:w>1</t:w></t:head><t:x>maybe</t:x></t:root>',
 ]
-KINDS = ['permute', 'split', 'spell', 'twice', 'copy', 'pickle', 'imports']
+KINDS = ['permute', 'split', 'spell', 'twice', 'copy', 'pickle', 'imports', 'same-text']
 
 
 def summary(s):
@@ -60,6 +60,20 @@ def eval_arrangement(args):
             if kind == 'spell': incs += f'<xs:include schemaLocation="{spell(names[1])}"/>'
             open(os.path.join(d, 'main.xsd'), 'w').write(HEAD + incs + ''.join(parts[0]) + '</xs:schema>')
             s = cls(os.path.join(d, 'main.xsd'))
+        elif kind == 'same-text':
+            # the same relative text names a missing file next to main.xsd (a dangling include: only a warning) and an existing file next to
+            # sub/part.xsd; a location is what it resolves to from the including document, not its spelling
+            d = os.path.join(root, f'{ver}_{kind}_{seed}'); os.makedirs(os.path.join(d, 'sub'))
+            half = len(decls) // 2
+            open(os.path.join(d, 'sub', 'types.xsd'), 'w').write(HEAD + ''.join(decls[:half]) + '</xs:schema>')
+            open(os.path.join(d, 'sub', 'part.xsd'), 'w').write(HEAD + '<xs:include schemaLocation="types.xsd"/>' + ''.join(decls[half:]) + '</xs:schema>')
+            incs = ['<xs:include schemaLocation="types.xsd"/>', '<xs:include schemaLocation="sub/part.xsd"/>']
+            if seed % 2: incs.reverse()
+            open(os.path.join(d, 'main.xsd'), 'w').write(HEAD + ''.join(incs) + '</xs:schema>')
+            import warnings
+            with warnings.catch_warnings():
+                warnings.simplefilter('ignore')
+                s = cls(os.path.join(d, 'main.xsd'))
         elif kind == 'twice': s = cls(HEAD + ''.join(decls) + '</xs:schema>'); s.maps.clear(); s.build()
         elif kind == 'copy':
             s0 = cls(HEAD + ''.join(decls) + '</xs:schema>'); maps = copy.copy(s0.maps); maps.build(); s = maps.validator
